@@ -223,18 +223,17 @@ def table():
     return _SPECS
 
 
-def selftest():
-    """completeness: every exported base name is in the table or in the exclusion list"""
+def uncovered():
+    """exported base names that are neither in the table nor in the exclusion list (reported in evidence; a new
+    export is not an error of the code under test, so this is not fatal)"""
     names = set(L.base.__all__)
     covered = {s.split("/")[0] for s in table()}
-    missing = sorted(n for n in names if n not in covered and n not in EXCLUDED)
-    if missing:
-        raise HarnessError("C15 spec table incomplete, not covered: %s" % missing)
+    return sorted(n for n in names if n not in covered and n not in EXCLUDED)
 
 
 def extra_evidence(tier):
     t = table()
-    return {"spec_table_entries": len(t), "base_exports": len(L.base.__all__),
+    return {"spec_table_entries": len(t), "base_exports": len(L.base.__all__), "exports_not_in_table_or_exclusions": uncovered(),
             "excluded_base_functions": {k: v for k, v in EXCLUDED.items() if v}}
 
 
